@@ -92,12 +92,17 @@ void RSModel::ResetAliases() {
 }
 
 bool RSModel::Erase(const EntityUID target) {
+  // Note: dependants must be collected while the target is still present in the dependency graph
+  auto dependants = core.RSLang().Graph().ExpandOutputs({ target });
+  dependants.erase(target);
   if (!core.Erase(target)) {
     return false;
   } else {
     dataFacet->Erase(target);
     calulatorFacet->Erase(target);
-    ResetDependants(target);
+    for (const auto dependant : dependants) {
+      ResetValueOf(dependant);
+    }
     NotifyModification();
     return true;
   }
@@ -137,15 +142,19 @@ bool RSModel::SetConventionFor(const EntityUID target, const std::string& conven
 
 void RSModel::ResetDependants(const EntityUID target) {
   for (const auto dependant : core.RSLang().Graph().ExpandOutputs({ target })) {
-    if (const auto type = core.GetRS(dependant).type;
-        dependant != target &&
-        !IsBaseSet(type)) {
-      if (type == CstType::structured) {
-        Values().PruneStructure(dependant);
-      } else {
-        Calculations().ResetFor(dependant);
-        Values().ResetFor(dependant);
-      }
+    if (dependant != target) {
+      ResetValueOf(dependant);
+    }
+  }
+}
+
+void RSModel::ResetValueOf(const EntityUID dependant) {
+  if (const auto type = core.GetRS(dependant).type; !IsBaseSet(type)) {
+    if (type == CstType::structured) {
+      Values().PruneStructure(dependant);
+    } else {
+      Calculations().ResetFor(dependant);
+      Values().ResetFor(dependant);
     }
   }
 }
